@@ -643,7 +643,7 @@ func (fr *FnRun) evalCall(e *Expr, env *Env) Val {
 		}
 		sv, ok := env.st.heap[fr.callsObj].(*StructV)
 		if !ok {
-			return Int(0)
+			panic(abortf("contract: calls(%q): the counters were lost on this path (verifier bug)", e.Args[0].Str))
 		}
 		if v, ok := sv.Ghost[e.Args[0].Str]; ok {
 			return v
@@ -681,6 +681,12 @@ func (fr *FnRun) evalCall(e *Expr, env *Env) Val {
 	case "implements":
 		// implements(x, T): the comma-ok result of the type assertion x.(T), T an interface or type of
 		// the function's package (the same term the executor uses for the assertion in the code)
+		// implements(x, *T): the dynamic type is the pointer type *T
+		ptrTo := false
+		if len(e.Args) == 2 && e.Args[1].Kind == "un" && e.Args[1].Op == "*" && e.Args[1].X != nil && e.Args[1].X.Kind == "ident" {
+			ptrTo = true
+			e = &Expr{Kind: e.Kind, X: e.X, Args: []*Expr{e.Args[0], e.Args[1].X}}
+		}
 		if len(e.Args) != 2 || e.Args[1].Kind != "ident" {
 			panic(abortf("contract: implements(value, TypeName)"))
 		}
@@ -700,6 +706,9 @@ func (fr *FnRun) evalCall(e *Expr, env *Env) Val {
 		}
 		if at == nil {
 			panic(abortf("contract: implements(): no type %s", e.Args[1].Name))
+		}
+		if ptrTo {
+			at = types.NewPointer(at)
 		}
 		it, toIface := under(at).(*types.Interface)
 		switch {
